@@ -421,6 +421,26 @@ func runC06(x *X) {
 		x.Nontrivial(contexts[ctx] + "\x00" + s)
 		c06Check(x, c, in, []string{"context:" + contexts[ctx]})
 	})
+	wide := WideGrids()
+	x.Explore("wide", ExploreOpts{ShardDepth: 2, Bound: "4 tables of 10-13 columns x generator on/off x a hostile text in each column position in turn"}, func(c *Chooser) {
+		g0 := wide[c.Choose(len(wide))]
+		gen := c.Bool()
+		g := &Grid{HasHeader: g0.HasHeader, Header: append([]string{}, g0.Header...)}
+		for _, r := range g0.Rows {
+			g.Rows = append(g.Rows, GridRow{Sep: r.Sep, Cells: append([]string{}, r.Cells...)})
+		}
+		col := c.Choose(g.NCols() + 1)
+		if col > 0 {
+			g.EachCell(func(kind string, row, cl int, p *string) {
+				if cl == col-1 {
+					*p = "</td><b>&" + *p
+				}
+			})
+		}
+		x.Transition(1)
+		x.Nontrivial(fmt.Sprint(g.ShapeKey(), col, gen))
+		c06Check(x, c, &c06Input{g: g, gen: gen}, []string{"ten_or_more_columns"})
+	})
 	x.Explore("shapes", ExploreOpts{ShardDepth: 2, Bound: fmt.Sprintf("header none/0..3, <=%d rows of sep|0..3 cells, generator on/off, template name empty/set", x.Pick(4, 5))}, func(c *Chooser) {
 		g := ChooseShape(c, ShapeCfg{MaxRows: x.Pick(4, 5), MaxCells: 3, Header: []int{-1, 0, 1, 2, 3}, Sep: true, HeaderLast: false})
 		g.SerialTexts()
